@@ -236,7 +236,7 @@ pub fn run(run: &mut Run) {
     run.sub_seq("names", 1, move |l, _i, rng| names_checks(l, &names2, rng));
 
     // behaviour: family of inputs
-    let nfam = if cfg!(miri) { 6 } else { run.tier.n(3000, 60_000) } as usize;
+    let nfam = if cfg!(miri) { 6 } else { run.tier.n(40_000, 1_200_000) } as usize;
     let seed = run.seed;
     let mut sigs: Vec<Vec<u64>> = vec![Vec::with_capacity(nfam); names.len()];
     let names3 = names.clone();
